@@ -131,6 +131,10 @@ class H5Group:
         automatically determined by the data
         :param compression: whether to compress the data (default: False)
         """
+        if dtype is not None and np.dtype(dtype).kind == "f":
+            # convert before the dataset is created or resized: values that
+            # cannot be stored must leave the file as it is
+            data = np.ascontiguousarray(data, dtype=dtype)
         shape = np.shape(data)
         if self.has_data(name):
             dset = self.get_dataset(name)
